@@ -59,7 +59,7 @@ def jobs(tier, seed):
         for off in range(-3, 4):
             out.append(('basic-%s-off%d' % (gen, off), dict(kind='basic', a=gen, b=off)))
     for gen in ('min', 'max'):
-        for mode in ('default-nom', 'user-nom', 'default-base', 'array-x'):
+        for mode in ('default-nom', 'user-nom', 'default-base', 'default-base-reused', 'array-x'):
             out.append(('gen-%s-%s' % (gen, mode), dict(kind='gen', a=gen, b=mode)))
     out.append(('make-exact-fp64', dict(kind='fp', a=0, b=0)))
     out.append(('cstep', dict(kind='cstep', a=0, b=0)))
@@ -162,6 +162,9 @@ def gen(job, sg, which, mode):
     kw = dict(base_step=base, step_ratio=ratio, num_steps=num, offset=off, use_exact_steps=False)
     if mode == 'user-nom':
         kw['step_nom'] = 0.75
+    reused = mode == 'default-base-reused'
+    if reused:
+        mode = 'default-base'
     if mode == 'default-base':
         kw = {}          # everything at its documented default
     if mode == 'array-x':
@@ -170,6 +173,10 @@ def gen(job, sg, which, mode):
     def harness():
         with tr.traced():
             g = cls(**kw)
+            if reused:
+                # the documented defaults are per call: an earlier first-derivative use of the same generator must not matter
+                list(g(0.25, 'forward', 1, 2))
+                _ = (g.step_ratio, g.num_steps, g.base_step)
             return list(g(xs, 'central', 2, 4)), g.step_ratio, g.num_steps
     ex = sn.Explorer(harness, assumptions=[base.t > 0], max_paths=64)
     paths = [p for p in ex.paths()]
@@ -360,7 +367,7 @@ def replay(cex):
             kw = dict(base_step=bv, step_ratio=rr_, num_steps=5, offset=1, use_exact_steps=False)
             if mode == 'user-nom':
                 kw['step_nom'] = 0.75
-            if mode == 'default-base':
+            if mode in ('default-base', 'default-base-reused'):
                 continue
             got = list(cls(**kw)(xarr, 'central', 2, 4))
             nom = 0.75 if mode == 'user-nom' else np.maximum(np.log(1.718281828459045 + np.abs(xarr)), 1)
@@ -368,8 +375,10 @@ def replay(cex):
             want = [bv * nom * rr_ ** ((i if which == 'min' else -i) + 1) for i in idxs]
             if len(got) != 5 or any(np.any(np.abs(np.asarray(g) - np.asarray(w)) > 1e-12 * np.abs(w)) for g, w in zip(got, want)):
                 return True, '%s(%s)(x=%r) yields %r, documented %r' % (cls.__name__, kw, xarr, got, want)
-        if mode == 'default-base':
+        if mode in ('default-base', 'default-base-reused'):
             g = cls()
+            if mode == 'default-base-reused':
+                list(g(0.25, 'forward', 1, 2))
             got = list(g(1.0, 'central', 2, 4))
             scale = sg.default_scale('central', 2, 4) if which == 'min' else 500
             b0 = (np.finfo(float).eps ** (1. / spec_scale('central', 2, 4)) if which == 'min' else 2.0) * max(math.log(1.718281828459045 + 1.0), 1)
